@@ -188,10 +188,36 @@ def effects(fn: Fn) -> List[Effect]:
             # constructor calls / BytesIO / pack results / list() etc. produce fresh objects
             if f in ("BytesIO", "io.BytesIO", "StringIO", "list", "dict", "set", "bytearray", "defaultdict") or f.split(".")[-1][:1].isupper():
                 return True
+        if isinstance(e, (ast.BinOp, ast.JoinedStr, ast.Constant, ast.Compare, ast.BoolOp)) and not isinstance(e, ast.BoolOp):
+            return True      # arithmetic / concatenation / repetition builds a new object
         d, src = copy_depth(e)
         if src is None:
             return True
         return d >= depth_needed
+
+    def origin(name: str, seen=()) -> Tuple[Optional[str], List[str]]:
+        """(root name, attribute chain) of the object a non-fresh local denotes."""
+        e = defs.get(name)
+        if e is None or name in seen or (isinstance(e, ast.Name) and e.id == "<loop>"):
+            return name, []
+        d, src = copy_depth(e)
+        node = src if src is not None else e
+        attrs: List[str] = []
+        while isinstance(node, (ast.Attribute, ast.Subscript, ast.Call)):
+            if isinstance(node, ast.Attribute):
+                attrs.append(node.attr)
+                node = node.value
+            elif isinstance(node, ast.Subscript):
+                node = node.value
+            else:
+                node = node.func
+        attrs.reverse()
+        if isinstance(node, ast.Name):
+            if node.id in defs and node.id not in ("self",) and node.id != name:
+                r, a = origin(node.id, tuple(seen) + (name,))
+                return r, a + attrs
+            return node.id, attrs
+        return None, attrs
 
     def base_of(t: ast.AST) -> Tuple[Optional[str], int, List[str]]:
         depth = 0
@@ -215,18 +241,30 @@ def effects(fn: Fn) -> List[Effect]:
         for t in targets:
             if isinstance(t, (ast.Attribute, ast.Subscript)):
                 base, depth, attrs = base_of(t)
+                fresh = base is not None and base != "self" and fresh_local(base, depth)
+                target = norm(t)
+                if base is not None and base != "self" and not fresh and base in defs:
+                    root, oattrs = origin(base)
+                    attrs = oattrs + attrs
+                    if oattrs:
+                        target = f"{norm(t)}  [= {root}.{'.'.join(oattrs)}…]"
                 first_attr = attrs[0] if attrs else ""
                 public = not first_attr.startswith("_") if attrs else True
-                fresh = base is not None and base != "self" and fresh_local(base, depth)
-                out.append(Effect("store", norm(t), public, n, fresh))
+                out.append(Effect("store", target, public, n, fresh))
         if isinstance(n, ast.Call) and isinstance(n.func, ast.Attribute) and n.func.attr in MUTATING_METHODS \
                 and not (isinstance(n.func.value, ast.Name) and n.func.value.id in ("self", "cls")) \
                 and not (isinstance(n.func.value, ast.Call) and norm(n.func.value.func) == "super"):
             recv = n.func.value
             base, depth, attrs = base_of(recv) if isinstance(recv, (ast.Attribute, ast.Subscript)) else \
                 ((recv.id if isinstance(recv, ast.Name) else None), 0, [])
+            fresh = base is not None and base != "self" and fresh_local(base, depth + 1)
+            target = norm(n)
+            if base is not None and base != "self" and not fresh and base in defs:
+                root, oattrs = origin(base)
+                attrs = oattrs + attrs
+                if oattrs:
+                    target = f"{norm(n)}  [= {root}.{'.'.join(oattrs)}…]"
             first_attr = attrs[0] if attrs else ""
             public = not first_attr.startswith("_")
-            fresh = base is not None and base != "self" and fresh_local(base, depth + 1)
-            out.append(Effect("mutate", norm(n), public, n, fresh))
+            out.append(Effect("mutate", target, public, n, fresh))
     return out
